@@ -10,7 +10,6 @@ From M4 Require Import Sys.Alloc.
 Import ListNotations.
 Local Open Scope N_scope.
 
-Set Implicit Arguments.
 
 (** * Generic list facts *)
 Section Count.
@@ -249,7 +248,7 @@ Lemma owned_slot s sl k :
   In sl (st_mmc s) -> s_size sl <> 0 -> s_data sl = Some k -> (1 <= cnt (owned s) k)%nat.
 Proof.
   intros Hin Hsz Hd. rewrite owned_cnt.
-  pose proof (cnt_flat_map_in N.eq_dec slot_ids _ _ k Hin) as H.
+  pose proof (cnt_flat_map_in _ _ N.eq_dec slot_ids _ _ k Hin) as H.
   assert (E : slot_ids sl = [k]).
   { unfold slot_ids. destruct (N.eqb_spec (s_size sl) 0); [contradiction|]. rewrite Hd. reflexivity. }
   rewrite E in H. pose proof (cnt_self_pos k []). lia.
@@ -260,7 +259,7 @@ Lemma owned_mat_data s m k off :
   (1 <= cnt (owned s) k)%nat.
 Proof.
   intros Hin Hl Hw Hd. rewrite owned_cnt.
-  pose proof (cnt_flat_map_in N.eq_dec mat_ids _ _ k Hin) as H.
+  pose proof (cnt_flat_map_in _ _ N.eq_dec mat_ids _ _ k Hin) as H.
   assert (E : mat_ids m = [k] ++ hdr_ids (m_hdr m)).
   { unfold mat_ids, data_ids. rewrite Hl, Hw, Hd. reflexivity. }
   rewrite E, count_occ_app in H. pose proof (cnt_self_pos k []). lia.
@@ -270,7 +269,7 @@ Lemma owned_mat_hdr s m k :
   In m (st_mats s) -> m_live m = true -> m_hdr m = HMalloc k -> (1 <= cnt (owned s) k)%nat.
 Proof.
   intros Hin Hl Hh. rewrite owned_cnt.
-  pose proof (cnt_flat_map_in N.eq_dec mat_ids _ _ k Hin) as H.
+  pose proof (cnt_flat_map_in _ _ N.eq_dec mat_ids _ _ k Hin) as H.
   assert (E : mat_ids m = data_ids m ++ [k]).
   { unfold mat_ids. rewrite Hl, Hh. reflexivity. }
   rewrite E, count_occ_app in H. pose proof (cnt_self_pos k []). lia.
@@ -279,7 +278,7 @@ Qed.
 Lemma owned_hb s k u : In (Some k, u) (st_hb s) -> (1 <= cnt (owned s) k)%nat.
 Proof.
   intros Hin. rewrite owned_cnt.
-  pose proof (cnt_flat_map_in N.eq_dec hb_ids _ _ k Hin) as H. cbn in H.
+  pose proof (cnt_flat_map_in _ _ N.eq_dec hb_ids _ _ k Hin) as H. cbn in H.
   destruct (N.eq_dec k k); [lia|congruence].
 Qed.
 
@@ -293,11 +292,11 @@ Proof.
 Qed.
 
 Lemma Inv_in_keys p s held hx i : Inv p s held hx -> (1 <= cnt held i + cnt (owned s) i)%nat -> In i (keys (st_heap s)).
-Proof. intros HI H. apply (count_occ_In N.eq_dec). rewrite (I_own HI). lia. Qed.
+Proof. intros HI H. apply (count_occ_In N.eq_dec). rewrite (I_own _ _ _ _ HI). lia. Qed.
 
 (* an id that is held is not owned by anything else, and vice versa *)
 Lemma Inv_excl p s held hx x : Inv p s held hx -> (cnt held x + cnt (owned s) x <= 1)%nat.
-Proof. intros HI. rewrite <- (I_own HI). apply (I_nodup HI). Qed.
+Proof. intros HI. rewrite <- (I_own _ _ _ _ HI). apply (I_nodup _ _ _ _ HI). Qed.
 
 Ltac sp := cbn [st_heap st_next st_mmc st_j st_hb st_cur st_mats].
 Ltac spi := cbn [st_heap st_next st_mmc st_j st_hb st_cur st_mats] in *.
@@ -322,7 +321,7 @@ Lemma sys_alloc_inv p s held hx sz s' i ev :
 Proof.
   intros HI E. unfold sys_alloc in E. injection E as <- <- <-.
   assert (Hfresh : ~ In (st_next s) (keys (st_heap s))).
-  { intros H. apply (I_bound HI) in H. lia. }
+  { intros H. apply (I_bound _ _ _ _ HI) in H. lia. }
   assert (Hfind : forall k b, heap_find (st_heap s) k = Some b ->
                   heap_find ((st_next s, mkBlk sz (garbage (st_next s))) :: st_heap s) k = Some b).
   { intros k b H. cbn. destruct (N.eqb_spec (st_next s) k) as [<-|]; auto.
@@ -339,10 +338,10 @@ Proof.
     + change (keys (_ :: st_heap s)) with (st_next s :: keys (st_heap s)).
       intros x [<-|H]; [lia|]. apply I_bound0 in H. lia.
     + intros sl Hin Hsz. destruct (I_slot0 sl Hin Hsz) as (i & b & H1 & H2 & H3).
-      exists i, b. split; [|split]; auto. apply Hfind in H2. exact H2.
+      exists i, b. split; [|split]; auto.
     + intros m Hin Hw. specialize (I_mat0 m Hin Hw). destruct (m_data m) as [[i off]|]; auto.
       destruct I_mat0 as (H1 & H2 & H3). split; [|split]; auto.
-      intros Hl. destruct (H3 Hl) as (b & Hb1 & Hb2). exists b. split; auto. apply Hfind in Hb1. exact Hb1.
+      intros Hl. destruct (H3 Hl) as (b & Hb1 & Hb2). exists b. split; auto.
   - unfold evs_ok, tst. cbn. rewrite N.leb_refl. reflexivity.
   - split; sp; try lia.
     + change (keys (_ :: st_heap s)) with (st_next s :: keys (st_heap s)).
@@ -359,14 +358,14 @@ Lemma sys_free_inv p s held hx i s' ev :
 Proof.
   intros HI E. unfold sys_free in E. injection E as <- <-.
   assert (Hin : In i (keys (st_heap s))).
-  { apply (Inv_in_keys HI). pose proof (cnt_self_pos i held). lia. }
+  { apply (Inv_in_keys _ _ _ _ i HI). pose proof (cnt_self_pos i held). lia. }
   assert (Hex : forall k, (1 <= cnt (owned s) k)%nat -> k <> i).
-  { intros k Hk ->. pose proof (Inv_excl i HI). pose proof (cnt_self_pos i held). lia. }
+  { intros k Hk ->. pose proof (Inv_excl _ _ _ _ i HI). pose proof (cnt_self_pos i held). lia. }
   unfold set_heap. split; [|split; [|split; [|repeat (split; [reflexivity|]); reflexivity]]]; sp.
   - destruct HI. constructor; sp; auto.
     + intros x. change (owned _) with (owned s). rewrite keys_remove.
-      pose proof (cnt_krem x Hin). specialize (I_own0 x). rewrite cnt_cons in I_own0. lia.
-    + intros x. rewrite keys_remove. pose proof (cnt_krem x Hin). specialize (I_nodup0 x). lia.
+      pose proof (cnt_krem _ _ x Hin). specialize (I_own0 x). rewrite cnt_cons in I_own0. lia.
+    + intros x. rewrite keys_remove. pose proof (cnt_krem _ _ x Hin). specialize (I_nodup0 x). lia.
     + intros x. rewrite keys_remove. intros H. apply krem_In in H. auto.
     + intros sl Hsl Hsz. destruct (I_slot0 sl Hsl Hsz) as (k & b & H1 & H2 & H3).
       exists k, b. split; [|split]; auto. rewrite find_remove_other; auto.
@@ -380,5 +379,217 @@ Proof.
     + intros k H. rewrite keys_remove in H. apply krem_In in H. auto.
     + intros k H _. destruct (N.eq_dec k i) as [->|Hne]; [|apply find_remove_other; auto].
       exfalso. rewrite keys_remove in H. apply (count_occ_In N.eq_dec) in H.
-      pose proof (cnt_krem i Hin). pose proof (I_nodup HI i). destruct (N.eq_dec i i); [lia|congruence].
+      pose proof (cnt_krem _ _ i Hin). pose proof (I_nodup _ _ _ _ HI i). destruct (N.eq_dec i i); [lia|congruence].
+Qed.
+
+(** * mmc.c *)
+Lemma find_size_some l sz i :
+  find_size l sz = Some i -> exists sl, nth_error l i = Some sl /\ s_size sl = sz.
+Proof.
+  revert i. induction l as [|a l IH]; intros i H; cbn in H; [discriminate|].
+  destruct (N.eqb_spec (s_size a) sz).
+  - injection H as <-. exists a. split; auto.
+  - destruct (find_size l sz) as [k|]; cbn in H; [|discriminate]. injection H as <-.
+    destruct (IH k eq_refl) as (sl & H1 & H2). exists sl. split; auto.
+Qed.
+
+Lemma find_size_none l sz : find_size l sz = None -> forall sl, In sl l -> s_size sl <> sz.
+Proof.
+  induction l as [|a l IH]; intros H sl Hin; [destruct Hin|]. cbn in H.
+  destruct (N.eqb_spec (s_size a) sz); [discriminate|].
+  destruct (find_size l sz); [discriminate|]. destruct Hin as [<-|Hin]; auto.
+Qed.
+
+Lemma slot_ids_empty sl : s_size sl = 0 -> slot_ids sl = [].
+Proof. unfold slot_ids. intros ->. reflexivity. Qed.
+
+Lemma Inv_upd_slot p s held held' hx i a b j' :
+  Inv p s held hx -> nth_error (st_mmc s) i = Some a ->
+  (forall x, (cnt held x + cnt (slot_ids a) x = cnt held' x + cnt (slot_ids b) x)%nat) ->
+  (s_size b <> 0 -> exists k bl, s_data b = Some k /\ heap_find (st_heap s) k = Some bl /\ b_size bl = s_size b) ->
+  (j' < NBLOCKS p)%nat ->
+  Inv p (set_mmc s (upd (st_mmc s) i b) j') held' hx.
+Proof.
+  intros HI Hn Hc Hb Hj. destruct HI. unfold set_mmc. constructor; sp; auto.
+  - intros x. rewrite I_own0, !owned_cnt. sp.
+    pose proof (cnt_flat_map_upd _ _ N.eq_dec slot_ids (st_mmc s) i a b x Hn). specialize (Hc x). lia.
+  - rewrite upd_length. auto.
+  - intros sl Hin Hsz. apply upd_In in Hin. destruct Hin as [->|Hin]; auto.
+Qed.
+
+Lemma evs_ok_tst s s0 ev s' : tst s = tst s0 -> evs_ok s0 ev s' -> evs_ok s ev s'.
+Proof. unfold evs_ok. intros ->. auto. Qed.
+
+Lemma hrel_eq s s0 s' :
+  st_next s = st_next s0 -> st_heap s = st_heap s0 -> hrel s0 s' -> hrel s s'.
+Proof. intros H1 H2 [A B C]. split; rewrite ?H1, ?H2; auto. Qed.
+
+Lemma mmc_malloc_inv p s held hx sz s' d ev :
+  Inv p s held hx -> sz <> 0 -> mmc_malloc p s sz = (s', d, ev) ->
+  Inv p s' (d :: held) hx /\ evs_ok s ev s' /\ hrel s s' /\
+  st_hb s' = st_hb s /\ st_cur s' = st_cur s /\ st_mats s' = st_mats s /\
+  (exists b, heap_find (st_heap s') d = Some b /\ b_size b = sz).
+Proof.
+  intros HI Hsz E. unfold mmc_malloc in E.
+  assert (Hmiss : forall s0, s0 = s -> sys_alloc s0 sz = (s', d, ev) ->
+    Inv p s' (d :: held) hx /\ evs_ok s ev s' /\ hrel s s' /\
+    st_hb s' = st_hb s /\ st_cur s' = st_cur s /\ st_mats s' = st_mats s /\
+    (exists b, heap_find (st_heap s') d = Some b /\ b_size b = sz)).
+  { intros s0 -> E0. destruct (sys_alloc_inv _ _ _ _ _ _ _ _ HI E0) as (A & B & C & _ & _ & D1 & D2 & D3 & D4 & _).
+    auto 10. }
+  destruct (enable_mmc p); [|eapply Hmiss; eauto].
+  destruct (if sz <=? THRESHOLD p then find_size (st_mmc s) sz else None) as [i|] eqn:Ef; [|eapply Hmiss; eauto].
+  destruct (sz <=? THRESHOLD p); [|discriminate].
+  destruct (find_size_some _ _ _ Ef) as (sl & Hn & Hs).
+  assert (Hlt : (i < length (st_mmc s))%nat) by (apply nth_error_Some; congruence).
+  rewrite (nth_error_nth _ _ empty_slot Hn) in E.
+  assert (Hin : In sl (st_mmc s)) by (eapply nth_error_In; eauto).
+  destruct (I_slot _ _ _ _ HI sl Hin) as (k & b & Hd & Hf & Hb); [congruence|].
+  rewrite Hd in E. injection E as <- <- <-.
+  split; [|split; [|split; [|split; [|split; [|split]]]]];
+    [ | apply evs_ok_nil; reflexivity | apply hrel_refl; reflexivity | reflexivity | reflexivity | reflexivity | ].
+  - apply (Inv_upd_slot p s held (k :: held) hx i sl empty_slot (st_j s) HI Hn);
+      [| cbn; congruence | apply (I_j _ _ _ _ HI)].
+    intros x. rewrite (slot_ids_empty empty_slot) by reflexivity.
+    assert (E : slot_ids sl = [k]).
+    { unfold slot_ids. destruct (N.eqb_spec (s_size sl) 0); [congruence|]. rewrite Hd. reflexivity. }
+    rewrite E, cnt_cons. cbn. destruct (N.eq_dec k x); lia.
+  - exists b. split; auto. congruence.
+Qed.
+
+Lemma mmc_free_inv p s held hx d sz s' ev :
+  Inv p s (olist d ++ held) hx ->
+  match d with
+  | Some k => sz <> 0 /\ exists b, heap_find (st_heap s) k = Some b /\ b_size b = sz
+  | None => sz = 0
+  end ->
+  mmc_free p s d sz = (s', ev) ->
+  Inv p s' held hx /\ evs_ok s ev s' /\ hrel s s' /\
+  st_hb s' = st_hb s /\ st_cur s' = st_cur s /\ st_mats s' = st_mats s.
+Proof.
+  intros HI Hd E. unfold mmc_free in E.
+  assert (Hplain : sys_free s d = (s', ev) ->
+    Inv p s' held hx /\ evs_ok s ev s' /\ hrel s s' /\
+    st_hb s' = st_hb s /\ st_cur s' = st_cur s /\ st_mats s' = st_mats s).
+  { intros E0. destruct d as [k|].
+    - destruct (sys_free_inv _ _ _ _ _ _ _ HI E0) as (A & B & C & _ & _ & D1 & D2 & D3 & _). auto 10.
+    - injection E0 as <- <-. split; [exact HI|]. split; [apply evs_ok_nil; reflexivity|].
+      split; [apply hrel_refl; reflexivity|]. auto. }
+  destruct (enable_mmc p); [|auto].
+  destruct (sz <? THRESHOLD p); [|auto].
+  assert (Hnew : s_size (mkSlot sz d) <> 0 -> exists k bl, s_data (mkSlot sz d) = Some k /\
+                 heap_find (st_heap s) k = Some bl /\ b_size bl = s_size (mkSlot sz d)).
+  { cbn. intros Hz. destruct d as [k|]; [|contradiction]. destruct Hd as (_ & b & H1 & H2). eauto. }
+  assert (Hids : forall x, cnt (slot_ids (mkSlot sz d)) x = cnt (olist d) x).
+  { intros x. unfold slot_ids. cbn [s_size s_data]. destruct d as [k|]; [|destruct (sz =? 0); reflexivity].
+    destruct Hd as (Hz & _). destruct (N.eqb_spec sz 0); [contradiction|reflexivity]. }
+  destruct (find_size (st_mmc s) 0) as [i|] eqn:Ef.
+  - destruct (find_size_some _ _ _ Ef) as (sl & Hn & Hs). injection E as <- <-.
+    split; [|split; [|split; [|split; [|split]]]];
+      [ | apply evs_ok_nil; reflexivity | apply hrel_refl; reflexivity | reflexivity | reflexivity | reflexivity ].
+    apply (Inv_upd_slot p s (olist d ++ held) held hx i sl (mkSlot sz d) (st_j s) HI Hn);
+        [|exact Hnew|apply (I_j _ _ _ _ HI)].
+    intros x. rewrite (slot_ids_empty _ Hs), Hids, count_occ_app. cbn. lia.
+  - pose proof (I_j _ _ _ _ HI) as Hj. pose proof (I_mlen _ _ _ _ HI) as Hlen.
+    assert (Hlt : (st_j s < length (st_mmc s))%nat) by lia.
+    pose proof (nth_nth_error _ (st_mmc s) (st_j s) empty_slot Hlt) as Hn.
+    set (a := nth (st_j s) (st_mmc s) empty_slot) in *.
+    assert (Hin : In a (st_mmc s)) by (eapply nth_error_In; eauto).
+    pose proof (find_size_none _ _ Ef a Hin) as Hnz.
+    destruct (I_slot _ _ _ _ HI a Hin Hnz) as (old & bo & Hda & Hfo & Hbo).
+    rewrite Hda in E.
+    (* same final state as: put the new block into slot j (the old one becomes held), free the old *)
+    set (j' := Nat.modulo (S (st_j s)) (NBLOCKS p)) in *.
+    assert (Hj' : (j' < NBLOCKS p)%nat) by (apply Nat.mod_upper_bound; lia).
+    set (sa := set_mmc s (upd (st_mmc s) (st_j s) (mkSlot sz d)) j').
+    assert (HIa : Inv p sa (old :: held) hx).
+    { apply (Inv_upd_slot p s (olist d ++ held) (old :: held) hx (st_j s) a (mkSlot sz d) j' HI Hn);
+        [|exact Hnew|exact Hj'].
+      intros x. rewrite Hids, count_occ_app.
+      assert (Ea : slot_ids a = [old]).
+      { unfold slot_ids. destruct (N.eqb_spec (s_size a) 0); [contradiction|]. rewrite Hda. reflexivity. }
+      rewrite Ea, cnt_cons. cbn. destruct (N.eq_dec old x); lia. }
+    assert (Ea : sys_free sa (Some old) = (s', ev)).
+    { cbn in E. injection E as <- <-. reflexivity. }
+    destruct (sys_free_inv _ _ _ _ _ _ _ HIa Ea) as (A & B & C & _ & _ & D1 & D2 & D3 & _).
+    split; [exact A|]. split; [eapply evs_ok_tst; [|exact B]; reflexivity|].
+    split; [eapply hrel_eq; [| |exact C]; reflexivity|]. auto.
+Qed.
+
+Lemma mmc_cleanup_from_inv p n : forall s held hx i s' ev,
+  Inv p s held hx -> (i + n = NBLOCKS p)%nat -> mmc_cleanup_from s i n = (s', ev) ->
+  Inv p s' held hx /\ evs_ok s ev s' /\ hrel s s' /\
+  st_hb s' = st_hb s /\ st_cur s' = st_cur s /\ st_mats s' = st_mats s /\
+  (forall k sl, (i <= k)%nat -> nth_error (st_mmc s') k = Some sl -> s_size sl = 0) /\
+  (forall k, (k < i)%nat -> nth_error (st_mmc s') k = nth_error (st_mmc s) k).
+Proof.
+  induction n as [|n IH]; intros s held hx i s' ev HI Hn E; cbn [mmc_cleanup_from] in E.
+  - injection E as <- <-. split; [exact HI|]. split; [apply evs_ok_nil; reflexivity|].
+    split; [apply hrel_refl; reflexivity|]. repeat (split; [reflexivity|]). split; auto.
+    intros k sl Hk Hs. pose proof (I_mlen _ _ _ _ HI). assert (nth_error (st_mmc s) k <> None) by congruence.
+    apply nth_error_Some in H0. lia.
+  - pose proof (I_mlen _ _ _ _ HI) as Hlen.
+    assert (Hlt : (i < length (st_mmc s))%nat) by lia.
+    pose proof (nth_nth_error _ (st_mmc s) i empty_slot Hlt) as Hnth.
+    set (a := nth i (st_mmc s) empty_slot) in *.
+    assert (Hin : In a (st_mmc s)) by (eapply nth_error_In; eauto).
+    (* the state after this iteration, and its invariant *)
+    assert (Hstep : exists s2 ev1, (let '(s1, ev1) := if s_size a =? 0 then (s, []) else sys_free s (s_data a) in
+                      (set_mmc s1 (upd (st_mmc s1) i (mkSlot 0 (s_data a))) (st_j s1), ev1)) = (s2, ev1) /\
+              Inv p s2 held hx /\ evs_ok s ev1 s2 /\ hrel s s2 /\
+              st_hb s2 = st_hb s /\ st_cur s2 = st_cur s /\ st_mats s2 = st_mats s /\
+              st_mmc s2 = upd (st_mmc s) i (mkSlot 0 (s_data a))).
+    { destruct (N.eqb_spec (s_size a) 0) as [Hz|Hnz].
+      - eexists _, _. split; [reflexivity|].
+        split; [|split; [apply evs_ok_nil; reflexivity|split; [apply hrel_refl; reflexivity|]]]; [|auto 6].
+        apply (Inv_upd_slot p s held held hx i a (mkSlot 0 (s_data a)) (st_j s) HI Hnth);
+          [|cbn; congruence|apply (I_j _ _ _ _ HI)].
+        intros x. rewrite (slot_ids_empty _ Hz), (slot_ids_empty (mkSlot 0 (s_data a))) by reflexivity. lia.
+      - destruct (I_slot _ _ _ _ HI a Hin Hnz) as (old & bo & Hda & Hfo & Hbo). rewrite Hda.
+        set (sa := set_mmc s (upd (st_mmc s) i (mkSlot 0 (Some old))) (st_j s)).
+        assert (HIa : Inv p sa (old :: held) hx).
+        { apply (Inv_upd_slot p s held (old :: held) hx i a (mkSlot 0 (Some old)) (st_j s) HI Hnth);
+            [|cbn; congruence|apply (I_j _ _ _ _ HI)].
+          intros x. rewrite (slot_ids_empty (mkSlot 0 (Some old))) by reflexivity.
+          assert (Ea : slot_ids a = [old]).
+          { unfold slot_ids. destruct (N.eqb_spec (s_size a) 0); [contradiction|]. rewrite Hda. reflexivity. }
+          rewrite Ea, cnt_cons. cbn. destruct (N.eq_dec old x); lia. }
+        destruct (sys_free sa (Some old)) as [sb evb] eqn:Eb.
+        destruct (sys_free_inv _ _ _ _ _ _ _ HIa Eb) as (A & B & C & D0 & _ & D1 & D2 & D3 & _).
+        exists sb, evb. split.
+        { cbn in Eb |- *. injection Eb as <- <-. reflexivity. }
+        split; [exact A|]. split; [eapply evs_ok_tst; [|exact B]; reflexivity|].
+        split; [eapply hrel_eq; [| |exact C]; reflexivity|]. auto 6. }
+    destruct Hstep as (s2 & ev1 & E2 & HI2 & B2 & C2 & D1 & D2 & D3 & D4).
+    fold a in E. destruct (if s_size a =? 0 then (s, []) else sys_free s (s_data a)) as [s1 ev1'] eqn:E1.
+    injection E2 as E2a E2b. rewrite E2a in E. subst ev1'.
+    destruct (mmc_cleanup_from s2 (S i) n) as [s3 ev3] eqn:E3. injection E as <- <-.
+    destruct (IH s2 held hx (S i) s3 ev3 HI2 ltac:(lia) E3) as (A3 & B3 & C3 & F1 & F2 & F3 & F4 & F5).
+    split; [exact A3|]. split; [eapply evs_ok_app; eauto|].
+    split; [eapply hrel_trans; eauto; apply (I_bound _ _ _ _ HI)|].
+    split; [congruence|]. split; [congruence|]. split; [congruence|]. split.
+    + intros k sl Hk Hs. destruct (Nat.eq_dec k i) as [->|Hne].
+      * rewrite F5 in Hs by lia. rewrite D4, upd_nth_same in Hs by lia. injection Hs as <-. reflexivity.
+      * apply (F4 k sl); auto. lia.
+    + intros k Hk. rewrite F5 by lia. rewrite D4. apply upd_nth_other. lia.
+Qed.
+
+Lemma all_zero_slot_ids l x :
+  (forall k sl, nth_error l k = Some sl -> s_size sl = 0) -> cnt (flat_map slot_ids l) x = 0%nat.
+Proof.
+  intros H. apply cnt_flat_map_zero. intros a Hin. destruct (In_nth_error _ _ Hin) as [k Hk].
+  rewrite (slot_ids_empty _ (H _ _ Hk)). reflexivity.
+Qed.
+
+Lemma mmc_cleanup_inv p s held hx s' ev :
+  Inv p s held hx -> mmc_cleanup p s = (s', ev) ->
+  Inv p s' held hx /\ evs_ok s ev s' /\ hrel s s' /\
+  st_hb s' = st_hb s /\ st_cur s' = st_cur s /\ st_mats s' = st_mats s /\
+  (enable_mmc p = true -> forall x, cnt (flat_map slot_ids (st_mmc s')) x = 0%nat).
+Proof.
+  intros HI E. unfold mmc_cleanup in E. destruct (enable_mmc p).
+  - destruct (mmc_cleanup_from_inv p (NBLOCKS p) s held hx 0 s' ev HI eq_refl E) as (A & B & C & D1 & D2 & D3 & D4 & _).
+    repeat (split; [assumption|]). intros _ x. apply all_zero_slot_ids. intros k sl. apply D4. lia.
+  - injection E as <- <-. split; [exact HI|]. split; [apply evs_ok_nil; reflexivity|].
+    split; [apply hrel_refl; reflexivity|]. repeat (split; [reflexivity|]). discriminate.
 Qed.
